@@ -67,6 +67,7 @@ TRUSTED = ["modelled, not verified: concurrent.futures Future/executor semantics
 K_CLUSTER = "C09:t2:cluster-tier-per-shard"
 K_QTIE = "C09:t2:qscore-tie-at-k-cut"
 K_T2DIFF = "C09:t2:par-differs-from-seq"
+K_DUPID = "C09:t2:duplicate-id-topk-before-dedupe"
 
 
 # --------------------------------------------------------------------------------------------
@@ -914,8 +915,106 @@ class T2E2EComp(Component):
         pi = list(range(w))
         rng.shuffle(pi)
         q = [1.0, 0.0, 0.0] if tiny else [rng.choice([1.0, 0.5, -1.0]), rng.choice([0.0, 1.0]), rng.choice([0.0, 0.0, 1.0])]
-        return {"eps": eps, "t2": t2, "perf": perf, "w": w, "pi": pi, "q": q,
+        case = {"eps": eps, "t2": t2, "perf": perf, "w": w, "pi": pi, "q": q,
                 "t2_k": rng.choice([None, None, 0, 1, 2]), "real_pool": rng.random() < 0.1}
+        d = rng.random()
+        if d < 0.10:
+            self._add_duplicates(rng, case)
+        elif d < 0.18:
+            case = self._readd_layout(rng, case)
+        return case
+
+    @staticmethod
+    def _add_duplicates(rng, case):
+        """re-added episode ids (`InMemoryIndex.add` never dedupes): 1-2 ids get a 2nd (sometimes 3rd) copy with the
+        same or a different text / ts / vector, right after the original (same shard) or anywhere (across shards)."""
+        eps = case["eps"]
+        for _ in range(rng.choice([1, 1, 2])):
+            j = rng.randrange(len(eps))
+            for _c in range(rng.choice([1, 1, 1, 2])):
+                cp = dict(eps[j])
+                if rng.random() < 0.5:
+                    cp["text"] = cp["text"] + " v2"
+                    cp["ts"] = rng.choice(["2025-01-09T00:00:00Z", "2025-01-10T00:00:00Z", "2024-06-01T00:00:00Z"])
+                if rng.random() < 0.5:
+                    cp["vec"] = [rng.choice(T2E2EComp.VALS) for _ in range(3)]
+                pos = j + 1 if rng.random() < 0.5 else rng.randrange(len(eps) + 1)
+                eps.insert(pos, cp)
+
+    @staticmethod
+    def _readd_layout(rng, case):
+        """structured re-add worlds: per contiguous shard block, `copies` recent copies of one id next to one old but
+        very similar episode; the other blocks hold weaker fillers; K around the number of copies."""
+        shards = rng.choice([2, 2, 3, 4, 8])
+        copies = rng.choice([2, 2, 2, 3])
+        per = copies + rng.choice([1, 1, 2])
+        block = rng.randrange(shards)            # the block that holds the re-added id
+        recent = ["2025-01-09T00:00:00Z", "2025-01-10T00:00:00Z", "2025-01-08T00:00:00Z"]
+        old = ["2024-06-01T00:00:00Z", "2023-01-01T00:00:00Z"]
+        eps = []
+        for b in range(shards):
+            for j in range(per):
+                if b == block and j < copies:
+                    eps.append({"id": "x", "owner": "A", "ts": recent[j % 3], "text": rng.choice(["orchard note", f"orchard note v{j}"]),
+                                "vec": [1.0, rng.choice([0.25, 0.5, 1.0]) * (j + 1), 0.0], "imp": 0.5})
+                elif b == block and j == copies:
+                    eps.append({"id": "oldbest", "owner": "A", "ts": rng.choice(old), "text": "old survey", "vec": [1.0, 0.0, 0.0], "imp": 0.5})
+                else:
+                    eps.append({"id": f"f{b}_{j}", "owner": "A", "ts": rng.choice(old + recent[:1]), "text": "filler",
+                                "vec": [rng.choice([0.25, 0.5, 1.0]), rng.choice([2.0, 3.0]), rng.choice([0.0, 1.0])], "imp": rng.choice([None, 0.5])})
+        if rng.random() < 0.3:
+            rng.shuffle(eps[block * per:(block + 1) * per])
+        t2 = dict(case["t2"], tiers=rng.choice([["exact_semantic", "archive"], ["exact_semantic", "archive"], ["archive", "exact_semantic"],
+                                                ["exact_semantic", "bogus", "archive"]]),
+                  k_retrieval=rng.choice([copies, copies, copies, copies + 1, 1]), exact_recent_days=rng.choice([7, 7, 30]),
+                  sim_threshold=rng.choice([-1.0, 0.0]), owner_scope="any")
+        pi = list(range(shards))
+        rng.shuffle(pi)
+        return dict(case, eps=eps, t2=t2, w=shards, pi=pi, q=[1.0, 0.0, 0.0], t2_k=rng.choice([None, None, 2]))
+
+    @staticmethod
+    def _build_index(case):
+        import numpy as np
+        from clematis.memory.index import InMemoryIndex
+        idx = InMemoryIndex()
+        for e in case["eps"]:
+            ep = {"id": e["id"], "owner": e["owner"], "ts": e["ts"], "text": e["text"], "vec_full": np.asarray(e["vec"], dtype=np.float32)}
+            aux = {}
+            if e.get("cluster"):
+                aux["cluster_id"] = e["cluster"]
+            if e.get("imp") is not None:
+                aux["importance"] = e["imp"]
+            if aux:
+                ep["aux"] = aux
+            idx.add(ep)
+        return idx
+
+    def reference_merge(self, case):
+        """What the fan-out returns when every shard reports every tier completely: the real shard views'
+        `search_tiered` for every (shard, tier) with the hints of the sequential walk, through the real cross-shard merge.
+        (id, score bits, text) set + tier sequence.  Used only by the classifier."""
+        import numpy as np
+        from clematis.engine.stages.t2.shard import merge_tier_hits_across_shards_dict
+        t2 = case["t2"]
+        idx = self._build_index(case)
+        q = np.asarray(case["q"], dtype=np.float32)
+        owner = {"agent": "A", "world": "world"}.get(str(t2["owner_scope"]).lower())
+        dicts = []
+        for sh in idx._iter_shards_for_t2("exact_semantic", suggested=case["w"]):
+            d = {}
+            for tier in t2["tiers"]:
+                hints = {"sim_threshold": float(t2["sim_threshold"]), "now": "2025-01-10T00:00:00Z"}
+                if tier == "exact_semantic":
+                    hints["recent_days"] = int(t2["exact_recent_days"])
+                elif tier == "cluster_semantic":
+                    hints["clusters_top_m"] = int(t2["clusters_top_m"])
+                elif tier != "archive":
+                    continue
+                hs = sh.search_tiered(owner=owner, q_vec=q, k=int(t2["k_retrieval"]), tier=tier, hints=hints)
+                d[tier] = [{"id": str(h.id), "score": float(h.score), "text": h.text} for h in hs]
+            dicts.append(d)
+        merged, used = merge_tier_hits_across_shards_dict(dicts, list(t2["tiers"]), int(t2["k_retrieval"]))
+        return {"items": sorted([h["id"], f2b(h["score"]), str(h["text"] or "")] for h in merged), "used": list(used)}
 
     def _run(self, case, par: bool, tiers=None, real_pool=False, calls=None, cap=None):
         import numpy as np
@@ -928,17 +1027,7 @@ class T2E2EComp(Component):
         perf = dict(case["perf"])
         perf["parallel"] = {"enabled": par, "t2": par, "max_workers": case["w"] if par else 0}
         cfg = _cfg({"t2": t2, "perf": perf})
-        idx = InMemoryIndex()
-        for e in case["eps"]:
-            ep = {"id": e["id"], "owner": e["owner"], "ts": e["ts"], "text": e["text"], "vec_full": np.asarray(e["vec"], dtype=np.float32)}
-            aux = {}
-            if e.get("cluster"):
-                aux["cluster_id"] = e["cluster"]
-            if e.get("imp") is not None:
-                aux["importance"] = e["imp"]
-            if aux:
-                ep["aux"] = aux
-            idx.add(ep)
+        idx = self._build_index(case)
         state = {"mem_index": idx, "mem_backend": "inmemory"}
         ctx = SimpleNamespace(cfg=cfg, now="2025-01-10T00:00:00Z", enc=_Enc(case["q"]), agent_id="A")
         if case.get("t2_k") is not None:
@@ -1036,6 +1125,18 @@ class T2E2EComp(Component):
             b = self._wrap(lambda: self._run(case, True, tiers=nt))
             if _canon(a) == _canon(b):
                 return K_CLUSTER
+        # re-added episode ids: the sequential walk cuts each tier to k_retrieval *before* de-duplicating by id, so
+        # copies of one id use up slots; the fan-out cuts per shard and surfaces more distinct ids.  Known class only
+        # if the real parallel result is exactly what complete per-shard tier results give through the real merge.
+        ids = [e["id"] for e in case["eps"]]
+        if len(set(ids)) < len(ids):
+            par = self._wrap(lambda: self._run(case, True))
+            ref = self._wrap(lambda: self.reference_merge(case))
+            if isinstance(par, dict) and "retrieved" in par and "items" in ref \
+                    and sorted([r[0], r[1], r[2]] for r in par["retrieved"]) == ref["items"] \
+                    and list(par["metrics"].get("tier_sequence", [])) == (ref["used"] or list(case["t2"]["tiers"])):
+                return K_DUPID
+            return K_T2DIFF
         # two candidates with different raw cosine but the same _qscore
         import numpy as np
         from clematis.memory.index import _cosine
@@ -1049,6 +1150,19 @@ class T2E2EComp(Component):
             if _canon(a) == _canon(b) or "cluster_semantic" in tiers:
                 return K_QTIE
         return K_T2DIFF
+
+    @staticmethod
+    def has_dup_ids(case) -> bool:
+        ids = [e["id"] for e in case["eps"]]
+        return len(set(ids)) < len(ids)
+
+    def seq_is_reference(self, case, io) -> bool:
+        """the sequential result equals the cross-shard merge of complete per-shard tier results."""
+        seq = io["seq"]
+        ref = self._wrap(lambda: self.reference_merge(case))
+        return isinstance(seq, dict) and "retrieved" in seq and "items" in ref \
+            and sorted([r[0], r[1], r[2]] for r in seq["retrieved"]) == ref["items"] \
+            and list(seq["metrics"].get("tier_sequence", [])) == (ref["used"] or list(case["t2"]["tiers"]))
 
     def fail_all(self, ctx: Ctx, case, io) -> None:
         for tag in ("par", "par_real"):
@@ -1076,6 +1190,11 @@ class T2E2EComp(Component):
                 t.add("early_tier_stop")
         if "cluster_semantic" in case["t2"]["tiers"]:
             t.add("cluster_tier")
+        ids = [e["id"] for e in case["eps"]]
+        if len(set(ids)) < len(ids):
+            t.add("duplicate_ids")
+            if max(ids.count(x) for x in set(ids)) > 2:
+                t.add("dup>=3_copies")
         if "par_real" in io:
             t.add("real_pool")
         return sorted(t) or ["default"]
@@ -1100,21 +1219,35 @@ def _run_t2e2e(ctx: Ctx, comp: T2E2EComp) -> None:
     cases = list(comp.corpus(ctx)) + [comp.gen(rng, i) for i in range(n)]
     seen_keys = set()
     mreqs = []
+    nraised = 0
+    deferred: list = []
     for c in cases:
         io = comp.impl(c)
+        if isinstance(io["seq"], dict) and "__raised__" in io["seq"]:
+            nraised += 1
+            if nraised > max(20, len(cases) // 4):
+                from harness.core import Infra
+                raise Infra(f"t2e2e: the sequential path raises on most generated cases ({io['seq']}): harness or generator broken")
         ctx.record_case(comp.name, c, comp.tags(c, io))
         for label, rq, real in comp.model_requests(c, io):
             mreqs.append((c, label, rq, real))
         differs = any(t in io and _canon(io["seq"]) != _canon(io[t]) for t in ("par", "par_real"))
         if differs:
             key = comp.classify(c)
+            dup = comp.has_dup_ids(c)
+            if key == K_T2DIFF and dup and not comp.seq_is_reference(c, io):
+                # the memory is also in the recorded duplicate-id class (sequential != complete fan-out): still a
+                # violation, but prefer an input on which the intended fan-out equals the sequential path as the replay
+                deferred.append((c, io))
+                continue
             if key not in seen_keys:
                 seen_keys.add(key)
                 from harness.core import shrink_case
 
-                def still(cc, key=key):
+                def still(cc, key=key, dup=dup):
                     o = comp.impl(cc)
-                    return _canon(o["seq"]) != _canon(o["par"]) and comp.classify(cc) == key
+                    return _canon(o["seq"]) != _canon(o["par"]) and comp.classify(cc) == key \
+                        and (not (dup and key == K_T2DIFF) or (comp.has_dup_ids(cc) and comp.seq_is_reference(cc, o)))
                 try:
                     if _canon(io["seq"]) != _canon(io["par"]):
                         c2 = shrink_case(comp, c, still, limit=30)
@@ -1122,6 +1255,8 @@ def _run_t2e2e(ctx: Ctx, comp: T2E2EComp) -> None:
                 except Exception:
                     pass
             comp.fail_all(ctx, c, io)
+    for c, io in deferred:
+        comp.fail_all(ctx, c, io)
     # the Lean sequential walk / merge on the real per-tier / per-shard hits reproduce ids and tier sequence
     ctx.extra["t2_model_replays"] = {"seq_walk": sum(1 for m in mreqs if m[1] == "seq_walk"),
                                      "par_merge": sum(1 for m in mreqs if m[1] == "par_merge")}
